@@ -55,6 +55,8 @@ def init_module(parser, options, position):
         EquEnv(parms, 'gather*'),
         EquEnv(parms, 'multiline'),
         EquEnv(parms, 'multiline*'),
+        EquEnv(parms, 'multline'),
+        EquEnv(parms, 'multline*'),
 
     ]
 
